@@ -102,6 +102,12 @@ CHECKS = {
         "lib-param-bn's pick_witness is trusted to instantiate the colour (independent of the harness's FnUpdate interpreter).",
         "DESIGN.md section 6, C20",
     ),
+    "C11": (
+        "property-based testing (proptest) of algebraic fixed-point laws on the tool's own results + differential against lib-param-bn reachability primitives",
+        "No counterexample among generated argument sets on random small networks and on 8 bundled benchmark models (up to 35 variables / 2^51 colours): unfolding equations, dualities, monotonicity, EF == reach_backward, AG == trap_forward, EU == constrained backward reachability, EX == pre + steady states, extremality of EG/AF/AU by reference iterations. On 4 large models only the laws of EX, AX, EF, AG, EU, AW are checked (the classical EG/AF/AU iterations take minutes there). Exploration.",
+        "pre, can_post, reach_backward, trap_forward, restrict, Reachability::reach_bwd of lib-param-bn are trusted; models needing more than a minute per operator are excluded.",
+        "DESIGN.md section 6, C11",
+    ),
 }
 
 PENDING_REASON = "check not built yet in this session (work in progress; see DESIGN.md section 10)"
